@@ -44,6 +44,28 @@ func main() {
 			os.Exit(2)
 		}
 		os.Exit(mc.RunCheck(ch, tier))
+	case "note":
+		// note <id> <key> <json>: adds a side note to coverage of an evidence file (used for the race-detector side pass)
+		if len(os.Args) < 5 {
+			usage()
+		}
+		p := mc.Root + "/evidence/" + strings.ToUpper(os.Args[2]) + ".json"
+		b, err := os.ReadFile(p)
+		if err != nil {
+			fmt.Println(err)
+			os.Exit(2)
+		}
+		var ev map[string]interface{}
+		var val interface{}
+		if json.Unmarshal(b, &ev) != nil || json.Unmarshal([]byte(os.Args[4]), &val) != nil {
+			fmt.Println("bad json")
+			os.Exit(2)
+		}
+		if cov, ok := ev["coverage"].(map[string]interface{}); ok {
+			cov[os.Args[3]] = val
+		}
+		out, _ := json.MarshalIndent(ev, "", " ")
+		os.WriteFile(p, out, 0o644) //nolint:errcheck
 	case "replay":
 		if len(os.Args) < 3 {
 			usage()
